@@ -250,10 +250,22 @@ class CHECK(core.Check):
         case["items"] = items
         return case
 
+    def _anycase(self, rng, name):
+        return "".join(c.upper() if rng.random() < 0.5 else c.lower() for c in name)
+
     def _error(self, rng):
+        """an HTTPError: response header names are case-insensitive, so every spelling is generated"""
+        hdrs = []
+        if rng.random() < 0.5:
+            hdrs.append([self._anycase(rng, "content-type"),
+                         rng.choice(["application/problem+json", "text/html; charset=utf-8", "application/json", "text/x-err"])])
+        for _ in range(rng.choice([0, 0, 1, 2])):
+            name = self._hname(rng)
+            if name.lower() not in ("content-length", "transfer-encoding", "content-type"):
+                hdrs.append([self._anycase(rng, name) if rng.random() < 0.5 else name, self._hvalue(rng)])
+        rng.shuffle(hdrs)
         return ["E", rng.choice([400, 401, 404, 418, 500, 503]), rng.choice(["", "Nope", "Bad  thing"]),
-                rng.choice(["", "Title é"]), rng.choice(["", "some detail\nline two"]), rng.choice([None, 7, -3]),
-                [[self._hname(rng), self._hvalue(rng)] for _ in range(rng.choice([0, 1]))]]
+                rng.choice(["", "Title é"]), rng.choice(["", "some detail\nline two"]), rng.choice([None, 7, -3]), hdrs]
 
     def _one(self, rng, malformed):
         if malformed:
@@ -306,6 +318,12 @@ class CHECK(core.Check):
             if chr(b).isspace():       # surrounding blanks are not part of a field value
                 continue
             yield {"kind": "header", "headers": [["X-B", [["s", chr(b)]]]], "rest": ""}
+        for name in ("content-type", "Content-Type", "CONTENT-TYPE", "Content-type", "cOnTeNt-TyPe", None):
+            for start in (True, False):
+                hdrs = [] if name is None else [[name, "application/problem+json"]]
+                yield {"kind": "response", "mode": "error", "status": "200 OK", "headers": [["X-A", "v"]], "chunkable": True,
+                       "method": "GET", "start": start,
+                       "items": [["E", 404, "", "T", "d", None, hdrs + [["X-Err", "1"]]]]}
         for m in METHODS:
             for mode in ("none", "body"):
                 yield {"kind": "request", "host": "a.test", "port": 80, "scheme": "http", "method": m, "path": "/p/é q",
@@ -789,9 +807,12 @@ class CHECK(core.Check):
         want_h = {}
         for k, v in headers:
             want_h[k.lower()] = v
+        if first and first[0][0] == "E":
+            # rules for a raised HTTPError: the error's own Content-Type (in any spelling) wins, text/plain is only the
+            # default; Content-Length is that of the rendered body
+            want_h.setdefault("content-type", "text/plain")
+            want_h["content-length"] = str(len(body))
         for k, v in want_h.items():
-            if first and first[0][0] == "E" and k == "content-length":
-                continue
             if p.headers.get(k) != v:
                 return "header %r: %r parsed as %r" % (k, v, p.headers.get(k))
         if bytes(p.body) != body:
